@@ -45,6 +45,11 @@ class UserAddEdge(ActionGroup):
             raise InvalidActionError(
                 f"Target node {target} not in solution yet - must be added before edge"
             )
+        if tracks.get_time(source) >= tracks.get_time(target):
+            raise InvalidActionError(
+                f"Cannot add edge {edge}: source node must be earlier in time than "
+                "target node"
+            )
 
         # Check if making a merge. If yes and force, remove the other edge and update
         # track ids.
